@@ -113,6 +113,20 @@ Proof. intros W Hi. destruct (W Hi) as (d & o & I & O & S). exists d, o. auto. Q
 Lemma wf_clean (n : node) : wf n -> wf (clean_buffers n).
 Proof. intros W Hi. destruct (W Hi) as (d & o & I & O & S). exists d, o. auto. Qed.
 
+Lemma dims_kept_set_teacher (n : node) t : dims_kept n (set_teacher n t).
+Proof. repeat split; auto. Qed.
+Lemma wf_set_teacher (n : node) t : wf n -> wf (set_teacher n t).
+Proof. intros W Hi. destruct (W Hi) as (d & o & I & O & S). exists d, o. auto. Qed.
+Lemma same_node_set_teacher (n : node) t : same_node n (set_teacher n t).
+Proof. repeat split. Qed.
+
+(* the node on which Node.train works once check_xy has (possibly) registered a teacher *)
+Definition registered (n : node) (y' : ycheck) : node :=
+  match y' with YTeacher td => set_teacher n (Some td) | _ => n end.
+
+Lemma registered_kept (n : node) y' : dims_kept n (registered n y') /\ (wf n -> wf (registered n y')) /\ same_node n (registered n y').
+Proof. destruct y'; simpl; repeat split; auto using wf_set_teacher. Qed.
+
 (* "initialise if needed" *)
 Definition init_if_needed (n : node) (xf : list nat) (yf : option nat) : res node :=
   if initialized n then ROk n else initialize n xf yf.
@@ -136,7 +150,7 @@ Proof.
   destruct (seqs_of x) as [xs|]; [|discriminate].
   destruct (if match nkind n with KIPReservoir _ => true | _ => false end
             then Some (map (fun p => (fst p, 0)) xs)
-            else match y with Some yd => seqs_of yd | None => None end) as [ys|]; [|discriminate].
+            else match y with YData yd => seqs_of yd | _ => None end) as [ys|]; [|discriminate].
   destruct (negb _); [discriminate|].
   match goal with |- context [if initialized n then ROk n else initialize n ?a ?b] =>
     destruct (if initialized n then ROk n else initialize n a b) as [n2|] eqn:E end; [|discriminate].
@@ -161,14 +175,38 @@ Qed.
 Lemma train_op_after (n n' : node) x y : after n (train_op n x y) = Some n' ->
   dims_kept n n' /\ (wf n -> wf n').
 Proof.
-  unfold train_op. destruct (seq2 x) as [[t f]|]; [|discriminate]. destruct y as [yd|]; [|discriminate].
-  destruct (seq2 yd) as [[ty m]|]; [|discriminate]. destruct (negb _); [discriminate|].
-  destruct (if initialized n then ROk n else initialize n [f] (Some m)) as [n1|] eqn:E.
-  - apply init_if_needed_ok in E as (K & I & W & _).
-    destruct (_ && _); [|discriminate]. simpl. intro H; inversion H; subst; clear H. split.
-    + eapply dims_kept_trans; [exact K|]. eapply dims_kept_trans; [apply dims_kept_bump_state|apply dims_kept_bump_params].
-    + intro Wn. apply wf_bump_params, wf_bump_state; auto.
-  - simpl. intro H; inversion H; subst. split; [apply dims_kept_refl|auto].
+  unfold train_op. destruct (seq2 x) as [[t f]|]; [|discriminate].
+  set (ydata := match y with YData yd => seq2 yd | _ => None end). clearbody ydata.
+  destruct (teacher n) as [td|].
+  - assert (G : after n
+      (match (if initialized n then ROk n else initialize n [f] (match ydata with Some (_, m) => Some m | None => td end)) with
+       | RErr e => Err PInit e n
+       | ROk n1 =>
+           if negb (match input_dim n1 with Some d => lnat_eqb d [f] | None => false end) then Irregular
+           else match td with
+                | None => Err PCore RuntimeError n1
+                | Some tdim => if width n1 =? tdim
+                               then Ok (set_teacher (bump_params (bump_state n1) false) None) (Some (t, width n1))
+                               else Irregular
+                end
+       end) = Some n' -> dims_kept n n' /\ (wf n -> wf n')).
+    { destruct (if initialized n then ROk n else initialize n [f] _) as [n1|] eqn:E.
+      - apply init_if_needed_ok in E as (K & I & W & _).
+        destruct (negb _); [discriminate|]. destruct td as [tdim|].
+        + destruct (width n1 =? tdim); [|discriminate]. simpl. intro H; inversion H; subst; clear H. split.
+          * eapply dims_kept_trans; [exact K|]. eapply dims_kept_trans; [apply dims_kept_bump_state|].
+            eapply dims_kept_trans; [apply dims_kept_bump_params|apply dims_kept_set_teacher].
+          * intro Wn. apply wf_set_teacher, wf_bump_params, wf_bump_state; auto.
+        + simpl. intro H; inversion H; subst. auto.
+      - simpl. intro H; inversion H; subst. split; [apply dims_kept_refl|auto]. }
+    destruct y; destruct ydata as [[ty m]|]; try exact G; discriminate.
+  - destruct ydata as [[ty m]|]; [|discriminate]. destruct (negb _); [discriminate|].
+    destruct (if initialized n then ROk n else initialize n [f] (Some m)) as [n1|] eqn:E.
+    + apply init_if_needed_ok in E as (K & I & W & _).
+      destruct (_ && _); [|discriminate]. simpl. intro H; inversion H; subst; clear H. split.
+      * eapply dims_kept_trans; [exact K|]. eapply dims_kept_trans; [apply dims_kept_bump_state|apply dims_kept_bump_params].
+      * intro Wn. apply wf_bump_params, wf_bump_state; auto.
+    + simpl. intro H; inversion H; subst. split; [apply dims_kept_refl|auto].
 Qed.
 
 Lemma step_after (n n' : node) (o : op) : after n (step n o) = Some n' -> dims_kept n n' /\ (wf n -> wf n').
@@ -183,7 +221,11 @@ Proof.
     + apply forward_op_after.
     + simpl. intro H; inversion H; subst. split; [apply dims_kept_refl|auto].
   - destruct (check_xy n x y false false true) as [[x' y']|e].
-    + apply train_op_after.
+    + fold (registered n y'). intro H.
+      assert (A : after (registered n y') (train_op (registered n y') x' y') = Some n').
+      { destruct (train_op (registered n y') x' y'); simpl in *; exact H. }
+      apply train_op_after in A as (K & W). destruct (registered_kept n y') as (K0 & W0 & _).
+      split; [eapply dims_kept_trans; eauto|auto].
     + simpl. intro H; inversion H; subst. split; [apply dims_kept_refl|auto].
   - destruct (check_xy n x _ true false true) as [[x' y']|e].
     + destruct (partial_fit_op n x' y') as [[n1|e]|[]] eqn:E; simpl; try discriminate.
@@ -230,20 +272,60 @@ Proof.
   - intro H; inversion H; auto.
 Qed.
 
-Lemma train_op_err (n n' : node) x y p e : train_op n x y = Err p e n' -> p = PInit /\ n' = n.
+Lemma train_op_err (n n' : node) x y p e : train_op n x y = Err p e n' -> p = PCore \/ (p = PInit /\ n' = n).
 Proof.
-  unfold train_op. destruct (seq2 x) as [[t f]|]; [|discriminate]. destruct y as [yd|]; [|discriminate].
-  destruct (seq2 yd) as [[ty m]|]; [|discriminate]. destruct (negb _); [discriminate|].
-  destruct (if initialized n then ROk n else initialize n [f] (Some m)) as [n1|].
-  - destruct (_ && _); discriminate.
-  - intro H; inversion H; auto.
+  unfold train_op. destruct (seq2 x) as [[t f]|]; [|discriminate].
+  set (ydata := match y with YData yd => seq2 yd | _ => None end). clearbody ydata.
+  destruct (teacher n) as [td|].
+  - assert (G :
+      (match (if initialized n then ROk n else initialize n [f] (match ydata with Some (_, m) => Some m | None => td end)) with
+       | RErr e => Err PInit e n
+       | ROk n1 =>
+           if negb (match input_dim n1 with Some d => lnat_eqb d [f] | None => false end) then Irregular
+           else match td with
+                | None => Err PCore RuntimeError n1
+                | Some tdim => if width n1 =? tdim
+                               then Ok (set_teacher (bump_params (bump_state n1) false) None) (Some (t, width n1))
+                               else Irregular
+                end
+       end) = Err p e n' -> p = PCore \/ (p = PInit /\ n' = n)).
+    { destruct (if initialized n then ROk n else initialize n [f] _) as [n1|].
+      - destruct (negb _); [discriminate|]. destruct td as [tdim|].
+        + destruct (width n1 =? tdim); discriminate.
+        + intro H; inversion H; auto.
+      - intro H; inversion H; auto. }
+    destruct y; destruct ydata as [[ty m]|]; try exact G; discriminate.
+  - destruct ydata as [[ty m]|]; [|discriminate]. destruct (negb _); [discriminate|].
+    destruct (if initialized n then ROk n else initialize n [f] (Some m)) as [n1|].
+    + destruct (_ && _); discriminate.
+    + intro H; inversion H; auto.
+Qed.
+
+Definition op_x (o : op) : data :=
+  match o with OCall x | ORun x | OTrain x _ | OPartialFit x _ | OFit x _ => x end.
+Definition op_y (o : op) : option data :=
+  match o with OCall _ | ORun _ => None | OTrain _ y | OPartialFit _ y | OFit _ y => y end.
+
+Lemma check_xy_teacher (n : node) x y ans ani ats x' td :
+  check_xy n x y ans ani ats = ROk (x', YTeacher td) -> y = Some (DTeacher td).
+Proof.
+  unfold check_xy. destruct x; try discriminate;
+  (match goal with |- context [check_n_sequences ?a ?b ?c ?d ?e] => destruct (check_n_sequences a b c d e) end; [|discriminate]);
+  (destruct y as [yd|]; [|discriminate]);
+  destruct yd as [? ?|?| | |td0];
+  try (match goal with |- context [check_n_sequences ?a ?b ?c ?d ?e] => destruct (check_n_sequences a b c d e) end; discriminate);
+  unfold register_teacher; destruct (has_online (nkind n)); try discriminate;
+  destruct (output_dim n) as [o|]; destruct td0 as [t0|]; try (destruct (o =? t0)); try discriminate;
+  intro H; inversion H; reflexivity.
 Qed.
 
 (* An exception raised before the core of the operation (no learning rule, validation, initialisation) leaves the
    node as it was; only fit additionally empties its offline buffers (clean_buffers), nothing else. *)
 Lemma reject_before_change (n n' : node) (o : op) (p : phase) (e : exn) :
   step n o = Err p e n' -> p <> PCore ->
-  same_node n n' /\ (is_fit o = false \/ p = PSupport -> n' = n) /\ (is_fit o = true -> p <> PSupport -> n' = clean_buffers n).
+  same_node n n' /\
+  (is_fit o = false \/ p = PSupport -> p <> PInit \/ (forall td, op_y o <> Some (DTeacher td)) -> n' = n) /\
+  (is_fit o = true -> p <> PSupport -> n' = clean_buffers n).
 Proof.
   unfold step. destruct (negb (supported (nkind n) o)).
   { intro H; inversion H; subst. intros _. split; [apply same_node_refl|]. split; auto. intros _ F. congruence. }
@@ -257,9 +339,11 @@ Proof.
     + intros H Hp. apply forward_op_err in H as [H|[H1 H2]]; [contradiction|subst].
       split; [apply same_node_refl|]. split; auto. discriminate.
     + intro H; inversion H; subst. intros _. split; [apply same_node_refl|]. split; auto. discriminate.
-  - destruct (check_xy n x y false false true) as [[x' y']|e0].
-    + intros H Hp. apply train_op_err in H as [H1 H2]; subst.
-      split; [apply same_node_refl|]. split; auto. discriminate.
+  - destruct (check_xy n x y false false true) as [[x' y']|e0] eqn:C.
+    + fold (registered n y'). intros H Hp. apply train_op_err in H as [H|[H1 H2]]; [contradiction|subst].
+      destruct (registered_kept n y') as (_ & _ & Sn). split; [exact Sn|]. split; [|discriminate].
+      intros _ [F|F]; [congruence|]. destruct y' as [|yd|td]; try reflexivity.
+      apply check_xy_teacher in C. exfalso. apply (F td). exact C.
     + intro H; inversion H; subst. intros _. split; [apply same_node_refl|]. split; auto. discriminate.
   - destruct (check_xy n x _ true false true) as [[x' y']|e0].
     + destruct (partial_fit_op n x' y') as [[n1|e1]|[]]; try discriminate.
@@ -314,6 +398,35 @@ Proof.
   destruct (nkind n1), (trained n1); try exact G; discriminate.
 Qed.
 
+Lemma train_op_ok (n n' : node) x y out : train_op n x y = Ok n' out ->
+  initialized n' = true /\ exists t f, seq2 x = Some (t, f) /\ out = Some (t, width n').
+Proof.
+  unfold train_op. destruct (seq2 x) as [[t f]|]; [|discriminate].
+  set (ydata := match y with YData yd => seq2 yd | _ => None end). clearbody ydata.
+  destruct (teacher n) as [td|].
+  - assert (G :
+      (match (if initialized n then ROk n else initialize n [f] (match ydata with Some (_, m) => Some m | None => td end)) with
+       | RErr e => Err PInit e n
+       | ROk n1 =>
+           if negb (match input_dim n1 with Some d => lnat_eqb d [f] | None => false end) then Irregular
+           else match td with
+                | None => Err PCore RuntimeError n1
+                | Some tdim => if width n1 =? tdim
+                               then Ok (set_teacher (bump_params (bump_state n1) false) None) (Some (t, width n1))
+                               else Irregular
+                end
+       end) = Ok n' out -> initialized n' = true /\ exists t0 f0, Some (t, f) = Some (t0, f0) /\ out = Some (t0, width n')).
+    { destruct (if initialized n then ROk n else initialize n [f] _) as [n1|] eqn:E; [|discriminate].
+      apply init_if_needed_ok in E as (K & I & W & _).
+      destruct (negb _); [discriminate|]. destruct td as [tdim|]; [|discriminate].
+      destruct (width n1 =? tdim); [|discriminate]. intro H; inversion H; subst. split; [exact I|]. exists t, f. auto. }
+    destruct y; destruct ydata as [[ty m]|]; try exact G; discriminate.
+  - destruct ydata as [[ty m]|]; [|discriminate]. destruct (negb _); [discriminate|].
+    destruct (if initialized n then ROk n else initialize n [f] (Some m)) as [n1|] eqn:E; [|discriminate].
+    apply init_if_needed_ok in E as (K & I & W & _).
+    destruct (_ && _); [|discriminate]. intro H; inversion H; subst. split; [exact I|]. exists t, f. auto.
+Qed.
+
 Lemma step_ok_initialized (n n' : node) (o : op) out : step n o = Ok n' out -> initialized n' = true.
 Proof.
   unfold step. destruct (negb (supported (nkind n) o)); [discriminate|].
@@ -324,11 +437,7 @@ Proof.
   - destruct (check_xy n x None false true true) as [[x' y']|e0]; [|discriminate].
     intro H. apply forward_op_ok in H. tauto.
   - destruct (check_xy n x y false false true) as [[x' y']|e0]; [|discriminate].
-    unfold train_op. destruct (seq2 x') as [[t f]|]; [|discriminate]. destruct y' as [yd|]; [|discriminate].
-    destruct (seq2 yd) as [[ty m]|]; [|discriminate]. destruct (negb _); [discriminate|].
-    destruct (if initialized n then ROk n else initialize n [f] (Some m)) as [n1|] eqn:E; [|discriminate].
-    apply init_if_needed_ok in E as (K & I & W & _).
-    destruct (_ && _); [|discriminate]. intro H; inversion H; subst. exact I.
+    intro H. apply train_op_ok in H. tauto.
   - destruct (check_xy n x _ true false true) as [[x' y']|e0]; [|discriminate].
     destruct (partial_fit_op n x' y') as [[n1|e1]|[]] eqn:E; try discriminate.
     apply partial_fit_op_ok in E as (_ & I & _). intro H; inversion H; subst. exact I.
@@ -360,7 +469,7 @@ Ltac crush :=
 Lemma cns_rows (x x' : data) ed ans ani ats t f :
   check_n_sequences x ed ans ani ats = ROk x' -> seq2 x' = Some (t, f) -> t = timesteps1 x.
 Proof.
-  destruct x as [num sh|items| |]; destruct ed as [[|d [|d2 ed']]|]; simpl; try discriminate.
+  destruct x as [num sh|items| | |td]; destruct ed as [[|d [|d2 ed']]|]; simpl; try discriminate.
   - (* array, one expected dim *)
     destruct sh as [|a [|b [|c [|dd r]]]]; simpl; unfold check_one_sequence, check_vector, atleast_2d; simpl;
       crush; try discriminate; intro H; inversion H; subst; simpl; crush; try discriminate;
@@ -398,10 +507,10 @@ Qed.
 Lemma inputs_of_rows (k : kind) (x x' : data) ed ats rows xf :
   check_n_sequences x ed false true ats = ROk x' -> inputs_of k x' = Some (rows, xf) -> rows = timesteps x.
 Proof.
-  intros C I. destruct x' as [num sh|l| |]; unfold inputs_of in I; try discriminate.
+  intros C I. destruct x' as [num sh|l| | |td]; unfold inputs_of in I; try discriminate.
   - destruct (seq2 (DArr num sh)) as [[t f]|] eqn:S; [|discriminate]. inversion I; subst.
     pose proof (cns_rows _ _ _ _ _ _ _ _ C S) as R. rewrite R.
-    destruct x as [? ?|items| |]; try reflexivity.
+    destruct x as [? ?|items| | |?]; try reflexivity.
     (* a list never becomes an array *)
     exfalso. clear - C. destruct ed as [[|d [|d2 ed']]|]; simpl in C; try discriminate;
       revert C; crush; try discriminate; intro H; inversion H.
@@ -410,7 +519,7 @@ Proof.
     destruct (forallb _ ps); [|discriminate]. inversion I; subst. clear I.
     simpl in S. destruct (seq2 v) as [[t f]|] eqn:Sv; [|discriminate]. destruct (seqs_list l'); [|discriminate].
     inversion S; subst. simpl.
-    destruct x as [num sh|items| |].
+    destruct x as [num sh|items| | |td].
     + exfalso. clear - C. destruct ed as [[|d [|d2 ed']]|]; simpl in C; try discriminate; revert C;
         unfold check_one_sequence, check_vector; crush; try discriminate; intro H; inversion H.
     + destruct items as [|it r].
@@ -421,11 +530,22 @@ Proof.
         unfold check_one_sequence, check_vector; crush; try discriminate; intro H; inversion H.
     + exfalso. clear - C. destruct ed as [[|d [|d2 ed']]|]; simpl in C; try discriminate; revert C;
         unfold check_one_sequence, check_vector; crush; try discriminate; intro H; inversion H.
+    + exfalso. clear - C. destruct ed as [[|d [|d2 ed']]|]; simpl in C; try discriminate; revert C;
+        unfold check_one_sequence, check_vector; crush; try discriminate; intro H; inversion H.
 Qed.
 
-Lemma check_xy_x (n : node) x ans ani ats x' y' :
-  check_xy n x None ans ani ats = ROk (x', y') -> check_n_sequences x (input_dim n) ans ani ats = ROk x'.
-Proof. unfold check_xy. destruct (check_n_sequences x (input_dim n) ans ani ats); [|discriminate]. intro H; inversion H; auto. Qed.
+
+Lemma check_xy_x_ok (n : node) x y ans ani ats x' y' :
+  check_xy n x y ans ani ats = ROk (x', y') -> check_n_sequences x (input_dim n) ans ani ats = ROk x'.
+Proof.
+  unfold check_xy. destruct x; try discriminate;
+  (match goal with |- context [check_n_sequences ?a ?b ?c ?d ?e] => destruct (check_n_sequences a b c d e) as [x0|] end; [|discriminate]);
+  (destruct y as [yd|]; [|intro H; inversion H; reflexivity]);
+  destruct yd;
+  try (match goal with |- context [check_n_sequences ?a ?b ?c ?d ?e] => destruct (check_n_sequences a b c d e) end;
+       [intro H; inversion H; reflexivity|discriminate]);
+  (destruct (register_teacher n dim); [intro H; inversion H; reflexivity|discriminate]).
+Qed.
 
 (* accepted run / call: exactly as many rows as timesteps, each of width output_dim *)
 Lemma rows_run (n n' : node) x out : wf n -> step n (ORun x) = Ok n' out ->
@@ -434,7 +554,7 @@ Proof.
   intros W H. destruct (step_ok_state _ _ _ _ W H) as (w & O & S). exists w. split; [exact O|].
   revert H. unfold step. simpl. destruct (check_xy n x None false true true) as [[x' y']|e0] eqn:C; [|discriminate].
   intro H. apply forward_op_ok in H as (_ & rows & xf & I & Eo & _). subst out.
-  apply check_xy_x in C. rewrite (inputs_of_rows _ _ _ _ _ _ _ C I). unfold width. rewrite O. reflexivity.
+  apply check_xy_x_ok in C. rewrite (inputs_of_rows _ _ _ _ _ _ _ C I). unfold width. rewrite O. reflexivity.
 Qed.
 
 Lemma rows_call (n n' : node) x out : wf n -> step n (OCall x) = Ok n' out ->
@@ -445,7 +565,7 @@ Proof.
   destruct (inputs_of (nkind n) x') as [[[|[|r]] xf0]|] eqn:I0; try discriminate.
   intro H. apply forward_op_ok in H as (_ & rows & xf & I & Eo & _). subst out.
   rewrite I0 in I. inversion I; subst.
-  apply check_xy_x in C. rewrite <- (inputs_of_rows _ _ _ _ _ _ _ C I0). unfold width. rewrite O. auto.
+  apply check_xy_x_ok in C. rewrite <- (inputs_of_rows _ _ _ _ _ _ _ C I0). unfold width. rewrite O. auto.
 Qed.
 
 Lemma rows_train (n n' : node) x y out : wf n -> step n (OTrain x y) = Ok n' out ->
@@ -454,24 +574,11 @@ Proof.
   intros W H. destruct (step_ok_state _ _ _ _ W H) as (w & O & S). exists w. split; [exact O|].
   revert H. unfold step. destruct (negb _); [discriminate|].
   destruct (check_xy n x y false false true) as [[x' y']|e0] eqn:C; [|discriminate].
-  unfold train_op. destruct (seq2 x') as [[t f]|] eqn:Sx; [|discriminate]. destruct y' as [yd|]; [|discriminate].
-  destruct (seq2 yd) as [[ty m]|]; [|discriminate]. destruct (negb _); [discriminate|].
-  destruct (if initialized n then ROk n else initialize n [f] (Some m)) as [n1|] eqn:E; [|discriminate].
-  destruct (_ && _); [|discriminate]. intro H; inversion H; subst.
-  unfold check_xy in C. destruct (check_n_sequences x (input_dim n) false false true) as [x0|] eqn:Cx; [|discriminate].
-  assert (x0 = x').
-  { destruct y as [yd0|]; [destruct (check_n_sequences yd0 _ _ _ _); [|discriminate]|]; inversion C; auto. }
-  subst x0.
-  rewrite (cns_rows _ _ _ _ _ _ _ _ Cx Sx).
-  simpl in O. unfold width. simpl. rewrite O. reflexivity.
+  intro H. apply train_op_ok in H as (_ & t & f & Sx & Eo). subst out.
+  apply check_xy_x_ok in C. rewrite (cns_rows _ _ _ _ _ _ _ _ C Sx). unfold width. rewrite O. reflexivity.
 Qed.
 
 (* ------------------------------------------------------------------------------------------------ what the validation rejects *)
-Definition op_x (o : op) : data :=
-  match o with OCall x | ORun x | OTrain x _ | OPartialFit x _ | OFit x _ => x end.
-Definition op_y (o : op) : option data :=
-  match o with OCall _ | ORun _ => None | OTrain _ y | OPartialFit _ y | OFit _ y => y end.
-
 Lemma c1s_wrong (num : bool) (sh : list nat) (d f : nat) ats :
   tl (atleast_2d sh) = [f] -> f <> d -> exists e, check_one_sequence (DArr num sh) (Some [d]) ats = RErr e.
 Proof.
@@ -517,16 +624,19 @@ Lemma cns_list_rejected (items : list data) (d : nat) ani ats :
   check_n_sequences (DList items) (Some [d]) false ani ats = RErr TypeError.
 Proof. reflexivity. Qed.
 
-Lemma check_xy_x_err (n : node) x y ans ani ats e :
-  check_n_sequences x (input_dim n) ans ani ats = RErr e -> check_xy n x y ans ani ats = RErr e.
-Proof. intro H. unfold check_xy. rewrite H. reflexivity. Qed.
+Lemma check_xy_x_err (n : node) x y ans ani ats :
+  (exists e, check_n_sequences x (input_dim n) ans ani ats = RErr e) -> exists e, check_xy n x y ans ani ats = RErr e.
+Proof. intros [e H]. unfold check_xy. rewrite H. destruct x; eauto. Qed.
 
 Lemma check_xy_y_err (n : node) x y ans ani ats :
+  (forall td, y <> DTeacher td) ->
   (exists e, check_n_sequences y (option_map (fun d => [d]) (output_dim n)) ans false ats = RErr e) ->
   exists e, check_xy n x (Some y) ans ani ats = RErr e.
 Proof.
-  intros [e H]. unfold check_xy. destruct (check_n_sequences x (input_dim n) ans ani ats); [|eauto].
-  rewrite H. eauto.
+  intros NT [e H]. unfold check_xy.
+  destruct (check_n_sequences x (input_dim n) ans ani ats); [|destruct x; eauto].
+  destruct y as [? ?|?| | |td]; try (rewrite H; destruct x; eauto).
+  exfalso. apply (NT td). reflexivity.
 Qed.
 
 (* bad input data: rejected in the checking phase of every operation the node supports *)
@@ -537,26 +647,28 @@ Lemma bad_input_rejected (n : node) (o : op) :
 Proof.
   intros S B.
   destruct o as [x|x|x y|x y|x y]; simpl in B.
-  - destruct (B false true false) as [e E]. exists e. apply check_error_rejects; auto. apply check_xy_x_err; auto.
-  - destruct (B false true true) as [e E]. exists e. apply check_error_rejects; auto. apply check_xy_x_err; auto.
-  - destruct (B false false true) as [e E]. exists e. apply check_error_rejects; auto. apply check_xy_x_err; auto.
-  - destruct (B true false true) as [e E]. exists e. apply check_error_rejects; auto. apply check_xy_x_err; auto.
-  - destruct (B true false true) as [e E]. exists e. apply check_error_rejects; auto. apply check_xy_x_err; auto.
+  - destruct (check_xy_x_err n x None false true false (B false true false)) as [e E]. exists e. apply check_error_rejects; auto.
+  - destruct (check_xy_x_err n x None false true true (B false true true)) as [e E]. exists e. apply check_error_rejects; auto.
+  - destruct (check_xy_x_err n x y false false true (B false false true)) as [e E]. exists e. apply check_error_rejects; auto.
+  - destruct (check_xy_x_err n x (if match nkind n with KIPReservoir _ => true | _ => false end then None else y) true false true (B true false true)) as [e E].
+    exists e. apply check_error_rejects; auto.
+  - destruct (check_xy_x_err n x (if match nkind n with KIPReservoir _ => true | _ => false end then None else y) true false true (B true false true)) as [e E].
+    exists e. apply check_error_rejects; auto.
 Qed.
 
 (* bad target data, for the operations that take a target on a supervised node *)
 Lemma bad_target_rejected (n : node) (o : op) (y : data) :
-  supported (nkind n) o = true -> op_y o = Some y ->
+  supported (nkind n) o = true -> op_y o = Some y -> (forall td, y <> DTeacher td) ->
   (match nkind n with KIPReservoir _ => False | _ => True end) ->
   (forall ans ats, exists e, check_n_sequences y (option_map (fun d => [d]) (output_dim n)) ans false ats = RErr e) ->
   exists e n', step n o = Err PCheck e n' /\ same_node n n'.
 Proof.
-  intros S Y K B.
+  intros S Y NT K B.
   destruct o as [x|x|x y0|x y0|x y0]; simpl in Y; try discriminate; inversion Y; subst y0.
-  - destruct (check_xy_y_err n x y false false true (B false true)) as [e E]. exists e. apply check_error_rejects; auto.
-  - destruct (check_xy_y_err n x y true false true (B true true)) as [e E]. exists e. apply check_error_rejects; auto.
+  - destruct (check_xy_y_err n x y false false true NT (B false true)) as [e E]. exists e. apply check_error_rejects; auto.
+  - destruct (check_xy_y_err n x y true false true NT (B true true)) as [e E]. exists e. apply check_error_rejects; auto.
     destruct (nkind n); try exact E; contradiction.
-  - destruct (check_xy_y_err n x y true false true (B true true)) as [e E]. exists e. apply check_error_rejects; auto.
+  - destruct (check_xy_y_err n x y true false true NT (B true true)) as [e E]. exists e. apply check_error_rejects; auto.
     destruct (nkind n); try exact E; contradiction.
 Qed.
 
@@ -584,4 +696,91 @@ Proof.
       assert (forallb (fun r => match link_1to1 s r with ROk _ => true | RErr _ => false end) rs = true).
       { apply forallb_forall. intros r Hr. rewrite Forall_forall in Hs. rewrite (Hs r Hr). reflexivity. }
       congruence.
+Qed.
+
+(* ------------------------------------------------------------------------------------------------ teacher nodes *)
+Lemma initialize_teacher (n n1 : node) xf yf : initialize n xf yf = ROk n1 -> teacher n1 = teacher n.
+Proof.
+  unfold initialize, set_in, set_out. destruct (derive_out n xf yf) as [o|]; [|discriminate].
+  destruct (input_dim n) as [d|]; [destruct (lnat_eqb d xf); [|discriminate]|];
+    simpl; destruct (output_dim n) as [d'|]; try (destruct (d' =? o); [|discriminate]);
+    intro H; inversion H; reflexivity.
+Qed.
+
+Lemma init_if_needed_teacher (n n1 : node) xf yf :
+  (if initialized n then ROk n else initialize n xf yf) = ROk n1 -> teacher n1 = teacher n.
+Proof. destruct (initialized n); [intro H; inversion H; reflexivity|apply initialize_teacher]. Qed.
+
+(* a teacher node whose (known) output dimension differs from the node's is rejected by check_xy and is NOT registered:
+   the node is literally unchanged *)
+Lemma teacher_mismatch_rejected (n : node) (x : data) (o t : nat) :
+  has_online (nkind n) = true -> output_dim n = Some o -> t <> o ->
+  exists e, step n (OTrain x (Some (DTeacher (Some t)))) = Err PCheck e n.
+Proof.
+  intros S O T. unfold step. simpl. rewrite S. simpl. unfold check_xy, register_teacher. rewrite S, O.
+  assert (E : (o =? t) = false) by (apply Nat.eqb_neq; congruence). rewrite E.
+  destruct x; try (eexists; reflexivity);
+    (match goal with |- context [check_n_sequences ?a ?b ?c ?d ?e] => destruct (check_n_sequences a b c d e) end);
+    eexists; reflexivity.
+Qed.
+
+(* an accepted operation never leaves a teacher registered (train unregisters it; the others never register one) *)
+Lemma step_ok_teacher (n n' : node) (o : op) out : step n o = Ok n' out -> teacher n = None -> teacher n' = None.
+Proof.
+  unfold step. destruct (negb (supported (nkind n) o)); [discriminate|].
+  assert (F : forall x', forall n2 out2, forward_op n x' = Ok n2 out2 -> teacher n = None -> teacher n2 = None).
+  { intros x' n2 out2. unfold forward_op. destruct (inputs_of (nkind n) x') as [[rows xf]|]; [|discriminate].
+    destruct (if initialized n then ROk n else initialize n xf None) as [n1|] eqn:E; [|discriminate].
+    apply init_if_needed_teacher in E. destruct (negb _); [discriminate|].
+    destruct (nkind n1), (trained n1); try discriminate; intro H; inversion H; subst; simpl; congruence. }
+  destruct o as [x|x|x y|x y|x y].
+  - destruct (check_xy n x None false true false) as [[x' y']|e0]; [|discriminate].
+    destruct (inputs_of (nkind n) x') as [[[|[|r]] xf]|]; try discriminate. apply F.
+  - destruct (check_xy n x None false true true) as [[x' y']|e0]; [|discriminate]. apply F.
+  - destruct (check_xy n x y false false true) as [[x' y']|e0]; [|discriminate].
+    fold (registered n y'). unfold train_op. destruct (seq2 x') as [[t f]|]; [|discriminate].
+    set (ydata := match y' with YData yd => seq2 yd | _ => None end). clearbody ydata.
+    destruct (teacher (registered n y')) as [td|] eqn:Tr.
+    + assert (G :
+        (match (if initialized (registered n y') then ROk (registered n y')
+                else initialize (registered n y') [f] (match ydata with Some (_, m) => Some m | None => td end)) with
+         | RErr e => Err PInit e (registered n y')
+         | ROk n1 =>
+             if negb (match input_dim n1 with Some d => lnat_eqb d [f] | None => false end) then Irregular
+             else match td with
+                  | None => Err PCore RuntimeError n1
+                  | Some tdim => if width n1 =? tdim
+                                 then Ok (set_teacher (bump_params (bump_state n1) false) None) (Some (t, width n1))
+                                 else Irregular
+                  end
+         end) = Ok n' out -> teacher n = None -> teacher n' = None).
+      { destruct (if initialized (registered n y') then _ else _) as [n1|]; [|discriminate].
+        destruct (negb _); [discriminate|]. destruct td as [tdim|]; [|discriminate].
+        destruct (width n1 =? tdim); [|discriminate]. intro H; inversion H; subst. reflexivity. }
+      destruct y'; destruct ydata as [[ty m]|]; try exact G; discriminate.
+    + destruct ydata as [[ty m]|]; [|discriminate]. destruct (negb _); [discriminate|].
+      destruct (if initialized (registered n y') then _ else _) as [n1|] eqn:E; [|discriminate].
+      apply init_if_needed_teacher in E. destruct (_ && _); [|discriminate].
+      intro H; inversion H; subst. simpl. congruence.
+  - destruct (check_xy n x _ true false true) as [[x' y']|e0]; [|discriminate].
+    destruct (partial_fit_op n x' y') as [[n1|e1]|[]] eqn:E; try discriminate.
+    intro H; inversion H; subst. clear H. revert E. unfold partial_fit_op.
+    destruct (seqs_of x') as [xs|]; [|discriminate].
+    match goal with |- context [match ?c with Some ys => _ | None => inr tt end] => destruct c as [ys|] end; [|discriminate].
+    destruct (negb _); [discriminate|].
+    match goal with |- context [if initialized n then ROk n else initialize n ?a ?b] =>
+      destruct (if initialized n then ROk n else initialize n a b) as [n2|] eqn:E end; [|discriminate].
+    apply init_if_needed_teacher in E. destruct (_ && _); [|discriminate]. intro H; inversion H; subst. congruence.
+  - destruct (check_xy n x _ true false true) as [[x' y']|e0]; [|discriminate].
+    destruct (partial_fit_op n x' y') as [[n1|e1]|[]] eqn:E; try discriminate.
+    assert (T1 : teacher n1 = teacher n).
+    { revert E. unfold partial_fit_op. destruct (seqs_of x') as [xs|]; [|discriminate].
+      match goal with |- context [match ?c with Some ys => _ | None => inr tt end] => destruct c as [ys|] end; [|discriminate].
+      destruct (negb _); [discriminate|].
+      match goal with |- context [if initialized n then ROk n else initialize n ?a ?b] =>
+        destruct (if initialized n then ROk n else initialize n a b) as [n2|] eqn:E end; [|discriminate].
+      apply init_if_needed_teacher in E. destruct (_ && _); [|discriminate]. intro H; inversion H; subst. exact E. }
+    destruct (nkind n1); try (match goal with |- context [if ?c then _ else _] => destruct c end); try discriminate;
+      intro H; inversion H; subst; simpl;
+      destruct (match nkind n with KIPReservoir _ => true | _ => false end); simpl; congruence.
 Qed.
